@@ -976,6 +976,153 @@ def run_sec(prop, tier, seed, t0, replay_item=None):
     return finish(rep, t0)
 
 
+# ----------------------------------------------------------------------------- C18 keys
+
+TABLE_RE = re.compile(r'^<<"TABLE", "(.*)">>$')
+PW_POOL = {"empty": [""], "ascii": ["hunter2", "a b c", "p@ss:w0rd!"], "multibyte": ["pässwörd", "日本語のパスワード", "пароль"], "long": ["L" * 200, "x" * 1024]}
+
+
+def run_c18(tier, seed, t0, replay_item=None):
+    prop = "C18"
+    rep = Report(prop, tier, seed, "model_checking")
+    runner = core.build_runner()
+    ntuples = 0
+    if replay_item is not None:
+        items = [replay_item]
+    else:
+        out, st = core.tlc("Keys.tla", "Keys.cfg", workers=1, timeout=300)
+        if st["error"] or "is false" in out:
+            raise Infra("Keys.tla failed: " + out[-1500:])
+        table = None
+        for line in out.splitlines():
+            m = TABLE_RE.match(line.strip())
+            if m:
+                table = json.loads(json.loads('"' + m.group(1) + '"'))
+        if not table:
+            raise Infra("Keys.tla printed no table")
+        ntuples = len(table)
+        log("[C18] TLC enumerated %d (role, format, password class, parse password, pair) tuples with expected outcomes from Keys.tla" % ntuples)
+        rng = random.Random(seed)
+        groups = {}
+        for t in table:
+            groups.setdefault((t["role"], t["format"], t["pw"]), []).append({"parsepw": t["parsepw"], "pair": t["pair"], "expect": t["expect"]})
+        items = []
+        reps = 1 if tier == "quick" else 4
+        for (role, fmt, pwc), tuples in sorted(groups.items()):
+            for k in range(reps):
+                pw = rng.choice(PW_POOL[pwc])
+                # with an empty generation password the classes "same" and "empty" coincide; keep the table's expectation
+                items.append({"id": "C18-%s-%s-%s-%d-%d" % (role, fmt, pwc, seed, k), "role": role, "format": fmt, "password": pw, "tuples": tuples})
+    res, crashed = core.run_batches(runner, "keys", items, per_batch=2, timeout=3000)
+    by_id = {it["id"]: it for it in items}
+    done, checks_n, infra, kinds = 0, 0, [], {}
+    for bid, why in crashed.items():
+        rep.violation("the process died in %s: %s" % (bid, why[-1500:]), {"kind": "keys", "prop": prop, "item": by_id[bid]})
+    for bid, r in res.items():
+        it = by_id[bid]
+        if r.get("infra"):
+            infra.append("%s: %s" % (bid, r["infra"]))
+            continue
+        done += 1
+        checks_n += r.get("checks", 0)
+        for k, v in (r.get("kinds") or {}).items():
+            kinds[it["role"] + "/" + it["format"] + "/" + k] = kinds.get(it["role"] + "/" + it["format"] + "/" + k, 0) + v
+        unknown = []
+        for f in r.get("findings", []):
+            k = match_known(prop, f, it)
+            if k:
+                rep.known[k["id"]] = "%s (%s)" % (k["what"], k["id"])
+            else:
+                unknown.append(f)
+        if unknown:
+            f = unknown[0]
+            rep.violation("%s %s: %s" % (bid, f.get("call", ""), f["msg"]), {"kind": "keys", "prop": prop, "item": it, "findings": unknown[:10]})
+    if infra and not rep.violations:
+        raise Infra("; ".join(infra[:4]))
+    rep.coverage = {"states": max(1, ntuples), "transitions": max(1, ntuples), "traces_validated_against_impl": done,
+                    "samples": [{"role": items[0]["role"], "format": items[0]["format"], "password": items[0]["password"], "tuples": items[0]["tuples"][:4]}] if items else ["none"],
+                    "evaluations": checks_n, "distinct_nontrivial": len(kinds),
+                    "rule": "every tuple of Keys.tla's table (role x format x password class {empty, ASCII, multi-byte, long} x parse password {same, wrong, empty, longer} x pair {own, other}) is executed on two freshly generated pairs: Keygen, Parse*, EncryptString/DecryptString + stream Encrypt/Decrypt or SignString/VerifyString + stream Sign/Verify (and an altered message must not verify); distinct = (role, format, tuple kind)",
+                    "kinds": kinds}
+    rep.assumptions = ["Keys.tla is an oracle table; the assurance comes from executing the real key handling", "key generation randomness is outside the model"]
+    return finish(rep, t0)
+
+
+# ----------------------------------------------------------------------------- C17 foreign archives
+
+def foreign_tree(rng, depth, fanout):
+    members = []
+    comps = ["a", "b", "c", "d"]
+    def rec(prefix, d):
+        n = rng.randrange(1, fanout + 1)
+        for name in rng.sample(comps, min(n, len(comps))):
+            p = prefix + [name]
+            if d < depth and rng.random() < 0.5:
+                members.append({"p": p, "kind": "dir", "size": 0})
+                rec(p, d + 1)
+            else:
+                members.append({"p": p, "kind": "file", "size": rng.choice([0, 1, 5, 511, 512, 513, 700, 10241, 33000])})
+    rec([], 1)
+    return members
+
+
+def run_c17(tier, seed, t0, replay_item=None):
+    prop = "C17"
+    rep = Report(prop, tier, seed, "model_checking")
+    runner = core.build_runner()
+    core.ensure_keys(runner)
+    mc = {"distinct": 0, "generated": 0}
+    if replay_item is not None:
+        items = [replay_item]
+    else:
+        mc = core.model_check("Roots.tla", "MC_Roots.cfg", timeout=1200)
+        log("[C17] TLC on Roots.tla: %d distinct states; every member of every archive shape resolves under all spellings" % mc["distinct"])
+        rng = random.Random(seed)
+        items = []
+        n = 36 if tier == "quick" else 600
+        for i in range(n):
+            fmt = ["ustar", "pax", "gnu"][i % 3]
+            shape = ["./", "/", "top/", "."][(i // 3) % 4]
+            pool = rng.choice(["plain", "plain", "long", "spaces", "nonascii", "like", "dots", "suffixy", "case"])
+            names, pool = conc.names(rng, ["a", "b", "c", "d"], pool)
+            items.append({"id": "C17-%d-%d" % (seed, i), "rs": rng.choice(conc.RECORD_SIZES), "format": fmt, "shape": shape,
+                          "members": foreign_tree(rng, rng.choice([1, 2, 3]), rng.choice([1, 2, 3])), "names": names,
+                          "seed": rng.randrange(1 << 30), "spellings": ["abs", "rel", "dot"], "pool": pool})
+    res, crashed = core.run_batches(runner, "foreign", items, per_batch=4, timeout=3000)
+    by_id = {it["id"]: it for it in items}
+    done, checks_n, infra, kinds, samples = 0, 0, [], set(), []
+    for bid, why in crashed.items():
+        rep.violation("the process died opening %s: %s" % (bid, why[-1500:]), {"kind": "foreign", "prop": prop, "item": by_id[bid]})
+    for bid, r in res.items():
+        it = by_id[bid]
+        if r.get("infra"):
+            infra.append("%s: %s" % (bid, r["infra"]))
+            continue
+        done += 1
+        checks_n += r.get("checks", 0)
+        kinds.add((it["format"], it["shape"], it.get("pool")))
+        unknown = []
+        for f in r.get("findings", []):
+            k = match_known(prop, f, it)
+            if k:
+                rep.known[k["id"]] = "%s (%s)" % (k["what"], k["id"])
+            else:
+                unknown.append(f)
+        if unknown:
+            f = unknown[0]
+            rep.violation("%s %s: %s" % (bid, f.get("call", ""), f["msg"]), {"kind": "foreign", "prop": prop, "item": it, "findings": unknown[:10]})
+    if infra and len(infra) > len(items) // 2 and not rep.violations:
+        raise Infra("; ".join(infra[:4]))
+    s0 = items[0] if items else {}
+    rep.coverage = {"states": max(1, mc["distinct"]), "transitions": max(1, mc["generated"]), "traces_validated_against_impl": done,
+                    "samples": [{"format": s0.get("format"), "shape": s0.get("shape"), "rs": s0.get("rs"), "members": s0.get("members", [])[:6], "names": s0.get("names")}],
+                    "evaluations": checks_n, "distinct_nontrivial": len(kinds),
+                    "rule": "directory trees (depth <= 3, fan-out <= 3, name pools incl. >100-byte, non-ASCII, wildcard and suffix-like names, content sizes 0..33000) are written by archive/tar as ustar / PAX / GNU archives with members named relative to './', '/', 'top/' or '.', opened through Initialize + cache.NewCacheFilesystem(root); every member must be listed under its directory exactly once and read back byte-identical, '/d/f', 'd/f' and './d/f' must resolve to it, and a directory + file added afterwards must coexist and survive a rebuild; distinct = (format, root shape, name pool)",
+                    "skipped": len(infra)}
+    rep.assumptions = ["archives contain an entry for their top-level directory first, as tar writes them"]
+    return finish(rep, t0)
+
+
 # ----------------------------------------------------------------------------- dispatch
 
 def run(prop, tier, seed, t0):
@@ -997,6 +1144,10 @@ def run(prop, tier, seed, t0):
         return run_c03(tier, seed, t0)
     if prop in ("C08", "C09"):
         return run_sec(prop, tier, seed, t0)
+    if prop == "C18":
+        return run_c18(tier, seed, t0)
+    if prop == "C17":
+        return run_c17(tier, seed, t0)
     print("property %s is not claimed by this framework (see MANIFEST.json not_applicable)" % prop, file=sys.stderr)
     return 2
 
@@ -1008,6 +1159,10 @@ def replay(prop, path):
         it = payload["item"]
         it["oracles"] = [prop]
         return run_core(prop, "quick", 0, t0, replay_item=it)
+    if payload.get("kind") == "keys":
+        return run_c18("quick", 0, t0, replay_item=payload["item"])
+    if payload.get("kind") == "foreign":
+        return run_c17("quick", 0, t0, replay_item=payload["item"])
     if payload.get("kind") == "sec":
         return run_sec(prop, "quick", 0, t0, replay_item=payload["item"])
     if payload.get("kind") == "pipe":
